@@ -52,7 +52,12 @@ def obligations(tier):
                                    f"{{'k': {k}, 'sel': [{first}, {second}, {', '.join(free[1:])}]}}", timeout=3000))
     # same world with contents that repeat across runs and targets (shared blobs)
     for first in range(4):
-        out.append(ob.make(f'dup-k{k}-{first}', 'hist', 'vp.harness.c06:body', sig, pre, f"{{'k': {k}, 'sel': [{first}, {', '.join(free)}], 'dup': True}}", timeout=900 if tier == 'quick' else 3000))
+        if tier == 'quick':
+            out.append(ob.make(f'dup-k{k}-{first}', 'hist', 'vp.harness.c06:body', sig, pre, f"{{'k': {k}, 'sel': [{first}, {', '.join(free)}], 'dup': True}}", timeout=900))
+        else:
+            for second in range(n):  # partitioned on the second operation as well (parallelism)
+                out.append(ob.make(f'dup-k{k}-{first}.{second}', 'hist', 'vp.harness.c06:body', ', '.join(f'{v}: int' for v in free[1:]), [' and '.join(f'0 <= {v} < {n}' for v in free[1:])],
+                                   f"{{'k': {k}, 'sel': [{first}, {second}, {', '.join(free[1:])}], 'dup': True}}", timeout=3000))
     allv = [f'e{i}' for i in range(k)]
     out.append(ob.make('hist', 'hist', 'vp.harness.c06:body', ', '.join(f'{v}: int' for v in allv), [' and '.join(f'0 <= {v} < {n}' for v in allv)],
                        f"{{'k': {k}, 'sel': [{', '.join(allv)}]}}", timeout=300, twin=True))
